@@ -17,7 +17,7 @@ use crate::engine::*;
 use crate::{ensure, fail};
 use bio::stats::hmm::discrete_emission::Model as Plain;
 use bio::stats::hmm::discrete_emission_opt_end::Model as OptEnd;
-use bio::stats::hmm::{backward, forward, viterbi, Model, State};
+use bio::stats::hmm::{backward, forward, viterbi, Model, State, Trainable};
 use bio::stats::{LogProb, Prob};
 use ndarray::{Array1, Array2};
 use proptest::prelude::*;
@@ -178,11 +178,16 @@ fn arr2(v: &[Vec<f64>]) -> Array2<f64> {
     Array2::from_shape_fn((r, c), |(i, j)| v[i][j])
 }
 
+#[derive(Debug)]
 pub struct Outputs {
     pub vit_path: Vec<usize>,
     pub vit: f64,
     pub fwd: f64,
     pub bwd: f64,
+}
+
+fn same_outputs(a: &Outputs, b: &Outputs) -> bool {
+    a.vit_path == b.vit_path && a.vit.to_bits() == b.vit.to_bits() && a.fwd.to_bits() == b.fwd.to_bits() && a.bwd.to_bits() == b.bwd.to_bits()
 }
 
 fn run<M: Model<usize>>(hmm: &M, obs: &[usize]) -> Outputs {
@@ -207,7 +212,10 @@ pub fn run_library(c: &Case, d: &Dense) -> Result<Outputs, Stop> {
                 Ctor::NewLog => Plain::new(tr.map(lp), em.map(lp), ini.map(lp)),
             };
             let Ok(hmm) = hmm else { fail!("constructor rejected consistent dimensions S={} M={}", d.s, d.m) };
-            run(&hmm, &obs)
+            let out = run(&hmm, &obs);
+            let cl = run(&hmm.clone(), &obs);
+            ensure!(same_outputs(&out, &cl), "a clone() of the model answers {:?}, the model itself {:?}", cl, out);
+            out
         }
         _ => {
             let hmm = match c.ctor {
@@ -225,7 +233,23 @@ pub fn run_library(c: &Case, d: &Dense) -> Result<Outputs, Stop> {
                 }
             };
             let Ok(hmm) = hmm else { fail!("constructor rejected consistent dimensions S={} M={}", d.s, d.m) };
-            run(&hmm, &obs)
+            let out = run(&hmm, &obs);
+            // a clone is an independent model: re-parameterising it (Trainable::update_matrices takes &self)
+            // must leave the model it was cloned from alone, and the clone must answer for its new matrices
+            let cl = hmm.clone();
+            let before = run(&cl, &obs);
+            ensure!(same_outputs(&out, &before), "a clone() of the model answers {:?}, the model itself {:?}", before, out);
+            let uni = |n: usize| LogProb((1.0 / n as f64).ln());
+            let (t2, e2, i2, end2) = (Array2::from_elem((d.s, d.s), uni(d.s + 1)), Array2::from_elem((d.s, d.m), uni(d.m)), Array1::from_elem(d.s, uni(d.s)), Array1::from_elem(d.s, uni(d.s + 1)));
+            cl.update_matrices(t2.clone(), e2.clone(), i2.clone(), end2.clone());
+            let after = run(&hmm, &obs);
+            ensure!(same_outputs(&out, &after), "after update_matrices on a clone() of the model, the model itself answers {:?}; before: {:?}", after, out);
+            let updated = run(&cl, &obs);
+            let fresh = OptEnd::new(RefCell::new(t2), RefCell::new(e2), RefCell::new(i2), RefCell::new(end2), endv.is_some());
+            let Ok(fresh) = fresh else { fail!("constructor rejected uniform matrices S={} M={}", d.s, d.m) };
+            let want = run(&fresh, &obs);
+            ensure!(same_outputs(&updated, &want), "a clone() re-parameterised with update_matrices (uniform matrices) answers {:?}, a model constructed from those matrices {:?}", updated, want);
+            out
         }
     };
     Ok(out)
